@@ -180,7 +180,7 @@ def snapshot(obj, _depth=0):
     if hasattr(obj, '__dict__'):
         items = []
         for name in sorted(vars(obj)):
-            if name in ('prev_layer',):       # back pointer: avoid cycles; forward chain covers the layers
+            if name in ('prev_layer',) or name.startswith('_'):   # back pointer (cycles) / private caches are not denotation
                 continue
             items.append((name, snapshot(getattr(obj, name), _depth + 1)))
         return ('o', type(obj).__name__, tuple(items))
@@ -202,7 +202,7 @@ def arrays_of(obj, _depth=0, out=None, path=''):
         for name in sorted(vars(obj)):
             if name == 'prev_layer':
                 continue
-            arrays_of(getattr(obj, name), _depth + 1, out, path + '.' + name)
+            arrays_of(getattr(obj, name), _depth + 1, out, path + '.' + name)      # (private caches included: sharing them is still sharing)
     return out
 
 
